@@ -46,7 +46,8 @@ V2Init == /\ Init /\ iv = 0 /\ ckpts = {} /\ ci \in CIs /\ pruned = 0
           /\ v2hist = (IF Record THEN <<[ckpts |-> {}, pruned |-> 0, loadable |-> {}, ci |-> ci]>> ELSE <<>>)
 
 V2Set(k, v) == k \notin Touched /\ Set(k, v) /\ UNCHANGED <<ckpts, ci, pruned>> /\ V2LogP
-V2Remove(k) == k \notin Touched /\ k \in KeysOf(work) /\ Remove(k) /\ UNCHANGED <<ckpts, ci, pruned>> /\ V2LogP
+\* a removal of a key that is not there is a call too: it changes nothing, but the key counts as touched
+V2Remove(k) == k \notin Touched /\ Remove(k) /\ UNCHANGED <<ckpts, ci, pruned>> /\ V2LogP
 \* v2 keeps every version's root; first stays 1 in the logical layer, pruning only affects Loadable
 V2Save ==
   /\ version = latest                       \* v2 always commits on top of the latest version
@@ -73,6 +74,8 @@ V2NextSim ==
     CASE c = "set"    -> IF Keys \ Touched = {} THEN V2Save ELSE \E k \in Keys \ Touched, v \in Vals : V2Set(k, v)
       [] c = "setnew" -> LET fresh == (Keys \ Touched) \ KeysOf(work) IN
                          IF fresh = {} THEN V2Save ELSE \E k \in fresh, v \in Vals : V2Set(k, v)
+      [] c = "rmabsent" -> LET gone == (Keys \ Touched) \ KeysOf(work) IN
+                         IF gone = {} THEN V2Save ELSE \E k \in gone : V2Remove(k)
       [] c = "rm"     -> IF KeysOf(work) \ Touched = {} THEN V2Save ELSE \E k \in KeysOf(work) \ Touched : V2Remove(k)
       [] c = "save"   -> V2Save
       [] c = "reopen" -> IF latest = 0 \/ nops > 0 THEN V2Save ELSE V2Reopen
